@@ -4,7 +4,8 @@ package decoration
 // The table below mirrors the `ensures` equations of the contract in zz_verif_contracts.go, in the same
 // order: each field keeps a non-empty value, otherwise takes the (already final) value of its source.
 // Bound: every emptiness pattern of the 22 string fields (2^22, thorough) / all patterns with at most
-// three fields set plus 50000 pseudo-random ones (quick); set fields carry distinct marker strings.
+// three fields set plus 50000 pseudo-random ones (quick); set fields carry distinct one-byte markers, and every
+// seventh pattern is run again with long markers.
 
 import (
 	"math/rand"
@@ -25,15 +26,28 @@ var standinDefaults = [][2]string{
 	{"HBLeft", "LeftBodyRule"}, {"HBRight", "RightBodyRule"},
 }
 
+// standinMarker: the value a set field carries. Short markers are one byte long (a field of length 1 is as
+// much "set" as a longer one), long ones name the field.
+func standinMarker(i int, f string, short bool) string {
+	if short {
+		return string(rune('a' + i))
+	}
+	return "<" + f + ">"
+}
+
 func standinCheck(t *testing.T, mask uint32, boxless bool) bool {
+	return standinCheckWith(t, mask, boxless, true) && (mask%7 != 0 || standinCheckWith(t, mask, boxless, false))
+}
+
+func standinCheckWith(t *testing.T, mask uint32, boxless bool, short bool) bool {
 	var d Decoration
 	d.isBoxless = boxless
 	dv := reflect.ValueOf(&d).Elem()
 	in := map[string]string{}
 	for i, f := range standinDefaults {
 		if mask&(1<<uint(i)) != 0 {
-			dv.FieldByName(f[0]).SetString("<" + f[0] + ">")
-			in[f[0]] = "<" + f[0] + ">"
+			dv.FieldByName(f[0]).SetString(standinMarker(i, f[0], short))
+			in[f[0]] = standinMarker(i, f[0], short)
 		}
 	}
 	d.Populate()
